@@ -255,6 +255,21 @@ pub fn run(prop: PathProp, tier: Tier, seed: u64) -> i32 {
             }
             odd_start(prop, &mut r, &mut sc, &mut b);
             multi_start(prop, &mut r, &mut sc, &mut b);
+            // C04: boxes whose sides are equally long but lie at different offsets (every side is
+            // stretched upwards to the longest one, so start, goal and world stay where they are)
+            if prop == PathProp::C04 && r.bool(0.1) {
+                for c in sc.problem.spec.comps.iter_mut() {
+                    if let crate::spec::CK::R { n, bounds: Some(bs) } = &mut c.kind {
+                        if *n >= 2 && bs.iter().all(|(l, h)| l.is_finite() && h.is_finite()) {
+                            let w = bs.iter().map(|(l, h)| h - l).fold(0.0f64, f64::max);
+                            for bnd in bs.iter_mut() {
+                                bnd.1 = bnd.0 + w;
+                            }
+                            b.count("boxes_with_equal_sides_at_different_offsets", 1);
+                        }
+                    }
+                }
+            }
             run_case(prop, &ctx, &mut b, &sc);
             i += shards;
         }
